@@ -20,26 +20,38 @@ Definition text_eqb : text -> text -> bool := list_eqb N.eqb.
 Definition lines_eqb : list text -> list text -> bool := list_eqb text_eqb.
 
 (* the JSON values of the check's alphabet *)
-Inductive jval := JInt (n : N) | JStr (s : text).
+(* every kind of JSON value can be a whole record: null, booleans, numbers, strings and (here: empty) containers *)
+Inductive jval := JNull | JBool (b : bool) | JInt (n : N) | JStr (s : text) | JList | JDict.
 Definition jval_eqb (a b : jval) : bool :=
   match a, b with
+  | JNull, JNull | JList, JList | JDict, JDict => true
+  | JBool x, JBool y => Bool.eqb x y
   | JInt x, JInt y => x =? y
   | JStr x, JStr y => text_eqb x y
   | _, _ => false
   end.
-Inductive jobs := JObsInt (n : N) | JObsStr (s : rtext).         (* as observed (strings run-length coded) *)
-Definition jobs_val (o : jobs) : jval := match o with JObsInt n => JInt n | JObsStr s => JStr (expand s) end.
+(* as observed (strings run-length coded) *)
+Inductive jobs := JObsNull | JObsBool (b : bool) | JObsInt (n : N) | JObsStr (s : rtext) | JObsList | JObsDict.
+Definition jobs_val (o : jobs) : jval :=
+  match o with
+  | JObsNull => JNull | JObsBool b => JBool b | JObsInt n => JInt n | JObsStr s => JStr (expand s)
+  | JObsList => JList | JObsDict => JDict
+  end.
 
-(* json.loads restricted to the alphabet the generator uses: JSON white space, digits, '"',
-   a few punctuation marks/letters that start no JSON token, and non-ASCII characters.
-   On that alphabet a document is: white space, then either a number 0 | [1-9][0-9]* or a string
-   '"' [^"\\ and no control character]* '"', then white space; everything else raises. *)
+(* json.loads restricted to the alphabet the generator uses: JSON white space, digits, '"', the letters of
+   null/true/false, brackets and braces, a few punctuation marks/letters that start no JSON token, and non-ASCII
+   characters.  On that alphabet (and with [json_shape_ok] below) a document is: white space, then one of
+     0 | [1-9][0-9]*      '"' [^"\ and no control character]* '"'      null  true  false      [ ws* ]      { ws* }
+   then white space; everything else raises.  None = json.loads raises; Some JNull = it returned None. *)
 Definition is_json_ws (c : N) : bool := (c =? 32) || (c =? 9) || (c =? 10) || (c =? 13).
 Definition lstrip_ws : text -> text := lstrip is_json_ws.
 Definition strip_ws (t : text) : text := rev (lstrip_ws (rev (lstrip_ws t))).
 Definition is_digit (c : N) : bool := (48 <=? c) && (c <=? 57).
 Definition digits_val (ds : text) : N := fold_left (fun a d => a * 10 + (d - 48)) ds 0.
 Definition str_char_ok (x : N) : bool := negb (x =? 34) && negb (x =? 92) && (32 <=? x).
+Definition lit_null : text := [110; 117; 108; 108].
+Definition lit_true : text := [116; 114; 117; 101].
+Definition lit_false : text := [102; 97; 108; 115; 101].
 
 Definition mini_loads (t : text) : option jval :=
   let s := strip_ws t in
@@ -54,15 +66,39 @@ Definition mini_loads (t : text) : option jval :=
             if (q =? 34) && forallb str_char_ok body_rev then Some (JStr (rev body_rev)) else None
         | [] => None
         end
+      else if text_eqb s lit_null then Some JNull
+      else if text_eqb s lit_true then Some (JBool true)
+      else if text_eqb s lit_false then Some (JBool false)
+      else if c =? 91 then (if text_eqb (lstrip_ws r) [93] then Some JList else None)
+      else if c =? 123 then (if text_eqb (lstrip_ws r) [125] then Some JDict else None)
       else None
   end.
 
-(* bytes on which mini_loads is json.loads (no token starters - [ { t f n N I, no backslash,
+(* bytes on which mini_loads is json.loads (no token starters - N I, no backslash, no '.', 'E', '+',
    no NUL / BOM bytes that would switch json.detect_encoding) *)
 Definition jsonl_byte_ok (b : N) : bool :=
-  ((9 <=? b) && (b <=? 13)) || (b =? 28) || (b =? 32) || (b =? 34) || (b =? 35) || (b =? 44) || is_digit b || (b =? 58) || (b =? 97) || (b =? 98)
+  ((9 <=? b) && (b <=? 13)) || (b =? 28) || (b =? 32) || (b =? 34) || (b =? 35) || (b =? 44) || is_digit b || (b =? 58)
+  || (b =? 97) || (b =? 98)
+  || (b =? 91) || (b =? 93) || (b =? 123) || (b =? 125)                                   (* [ ] { } *)
+  || (b =? 101) || (b =? 102) || (b =? 108) || (b =? 110) || (b =? 114) || (b =? 115) || (b =? 116) || (b =? 117)
   || ((120 <=? b) && (b <=? 122))
   || ((128 <=? b) && (b <=? 253) && negb (b =? 239)).
+
+(* shapes outside the fragment (fail closed): a '[' or '{' whose next character after blanks is neither the
+   matching closer nor a line end (a non-empty container), and a digit followed by 'e' (a float) *)
+Fixpoint json_shape_ok (t : text) : bool :=
+  match t with
+  | [] => true
+  | c :: r =>
+      (if (c =? 91) || (c =? 123)
+       then match lstrip (fun x => (x =? 32) || (x =? 9)) r with
+            | [] => true
+            | d :: _ => (d =? (if c =? 91 then 93 else 125)) || (d =? 10) || (d =? 13)
+            end
+       else true)
+      && (if is_digit c then match r with d :: _ => negb (d =? 101) | [] => true end else true)
+      && json_shape_ok r
+  end.
 
 (* ---- cases ----------------------------------------------------------------- *)
 Inductive c19_case :=
@@ -77,8 +113,9 @@ Inductive c19_case :=
 | CPrim (c : rtext) (bsplit biter : list rtext) (blstrip : rtext) (dec : option rtext)
         (titer : option (list rtext)) (tlstrip : option rtext)
   (* list(reverse_iter_lines(f, blocksize)) for each listed blocksize on a fresh file object with
-     content c; pos = Some p: preseek=False with the cursor at p *)
-| CRev (c : rtext) (m : fmode) (pos : option N) (runs : list (N * res (list rtext)))
+     content c; own = the handle's own encoding (None: a binary handle), arg = the encoding argument (None: not
+     given / None); pos = Some p: preseek=False with the cursor at p *)
+| CRev (c : rtext) (own arg : option fmode) (pos : option N) (runs : list (N * res (list rtext)))
   (* JSONLIterator(f, ignore_errors=ie) and JSONLIterator(f, ignore_errors=ie, reverse=True),
      drained with next(): objects, True if ended by a ValueError instead of StopIteration *)
 | CJsonl (c : rtext) (m : fmode) (ie : bool) (fwd rev : res (list jobs * bool)).
@@ -185,12 +222,14 @@ Definition c19_verdict (k : c19_case) : verdict :=
            | None => match titer, tlstrip with None, None => true | _, _ => false end
            end in
       (agree, true, false)
-  | CRev rc m pos rruns =>
+  | CRev rc own arg pos rruns =>
       let c := expand rc in
       let p := pos_of c pos in
       let pre := firstn p c in
       let runs := map (fun r => (bs_nat c (fst r), xres (snd r))) rruns in
-      let agree := forallb (fun r => lres_eqb (reverse_iter_lines m c (fst r) p) (snd r)) runs in
+      let agree := forallb (fun r => lres_eqb (reverse_iter_lines (mode_of (pick_encoding arg own)) c (fst r) p) (snd r))
+                           runs in
+      let m := mode_of (caller_wins arg own) in          (* Spec: the caller's encoding wins *)
       (* identically for every block size >= 1 ... *)
       let same := all_same (map snd runs) && forallb (fun r => (1 <=? fst r)%nat) runs in
       (* ... and, inside the domain, the Spec's lines *)
@@ -200,7 +239,7 @@ Definition c19_verdict (k : c19_case) : verdict :=
       let c := expand rc in
       let fwd := xjres rfwd in
       let rev_ := xjres rrev in
-      let inside := forallb jsonl_byte_ok c in
+      let inside := forallb jsonl_byte_ok c && json_shape_ok c in
       let agree := inside
                    && jres_eqb (jsonl_iter mini_loads m ie false c) fwd
                    && jres_eqb (jsonl_iter mini_loads m ie true c) rev_ in
@@ -224,13 +263,14 @@ Definition c19_explain (k : c19_case) : c19_expl :=
       let c := expand rc in
       XPrim (bytes_splitlines c) (file_iter_bin c) (py_lstrip is_ws_bytes c) (utf8_decode c)
             (option_map file_iter_text (utf8_decode c)) (option_map (py_lstrip is_ws_str) (utf8_decode c))
-  | CRev rc m pos rruns =>
+  | CRev rc own arg pos rruns =>
       let c := expand rc in
       let p := pos_of c pos in
       let pre := firstn p c in
+      let m := mode_of (pick_encoding arg own) in
       XRev (map (fun '(bs, _) => (bs_nat c bs, reverse_iter_lines m c (bs_nat c bs) p)) rruns)
            (no_lone_cr pre) (reverse_lines_spec pre)
   | CJsonl rc m ie _ _ =>
       let c := expand rc in
-      XJsonl (forallb jsonl_byte_ok c) (jsonl_iter mini_loads m ie false c) (jsonl_iter mini_loads m ie true c)
+      XJsonl (forallb jsonl_byte_ok c && json_shape_ok c) (jsonl_iter mini_loads m ie false c) (jsonl_iter mini_loads m ie true c)
   end.
